@@ -52,18 +52,21 @@ macro_rules! history {
 #[cfg_attr(kani, kani::proof, kani::unwind(4))]
 pub fn c03_sequence_direct_three_collects() {
     history!(0, 3, 0, 0, 3, 4, 5, 3);
+    vcover!(true, "end of harness reached");
 }
 /// Batches: local obs x2, collect (batch not visible), flush, collect, obs, local obs, flush,
 /// collect, collect.
 #[cfg_attr(kani, kani::proof, kani::unwind(4))]
 pub fn c03_sequence_batches_three_collects() {
     history!(1, 1, 3, 2, 3, 0, 1, 2, 3, 3);
+    vcover!(true, "end of harness reached");
 }
 /// Empty flush and getters between collects: flush, collect, obs, sum, collect, local obs, count,
 /// collect, flush, collect.
 #[cfg_attr(kani, kani::proof, kani::unwind(4))]
 pub fn c03_sequence_empty_flush_and_getters() {
     history!(2, 3, 0, 5, 3, 1, 4, 3, 2, 3);
+    vcover!(true, "end of harness reached");
 }
 
 /// A quiescent collect never waits: with no observation in flight its first compare-exchange on
@@ -82,6 +85,7 @@ pub fn c03_quiescent_collect_returns_immediately() {
     assert!(p.get_sample_count() == k as u64, "C03 collect returns with all completed observations");
     std::mem::forget(p);
     std::mem::forget(h);
+    vcover!(true, "end of harness reached");
 }
 
 pub fn dispatch(name: &str) -> Option<fn()> {
